@@ -525,6 +525,8 @@ def c08_signature(scn, clause, member=None):
         return "C08:Hexital:heikin-ashi+timeframe-member"
     if clause in ("member-candles", "member-readings") and cfg.get("life") is not None and any(m.get("tf") for m in scn["members"]):
         return "C08:Hexital:lifespan+timeframe-member"  # only reachable with genkw wide=True (outside the default domain)
+    if clause in ("member-candles", "member-readings") and cfg.get("fill") and cfg.get("tf") and any(m.get("tf") for m in scn["members"]):
+        return "C08:Hexital:base-fill+timeframe-member"  # likewise only with wide=True
     who = spec_label(member) if member else "Hexital"
     if clause == "member-candles":
         who = "Hexital"
